@@ -52,28 +52,7 @@ func c18(c *Check) {
 	c.FrozenFiltered("C07", "C18/proofs-verify-once-the-delay-passed", isVerifier)
 	c.FrozenFiltered("C08", "C18/proofs-verify-once-the-delay-passed", isVerifier)
 	c.Rule("C18/consensus-state-skipped-only-for-tss", "create / upgrade / toggle store the installed consensus state under exactly the conditions under which they store the client state, with one exception: CreateClient skips it when the consensus state's type is TSS — and under no other condition (a client installed at height 0 still gets its consensus state)", 3)
-	for _, f := range []string{"CreateClient", "UpgradeClient", "ToggleClient"} {
-		fn := c.F(clKeeper + "Keeper." + f)
-		fa := c.P.FA(fn)
-		scs := c.Calls(fn, "keeper.(Keeper).SetClientState")
-		ccs := c.Calls(fn, "keeper.(Keeper).SetClientConsensusState")
-		if len(scs) != 1 || len(ccs) != 1 {
-			c.Bad("C18/consensus-state-skipped-only-for-tss", funcName(fn), fn.Pos(), "expected one SetClientState and one SetClientConsensusState site")
-			continue
-		}
-		base := fa.PathCondStrings(scs[0].Ins.Block())
-		for _, sc := range fa.SuccessConds() { // what every successful end of the function has established anyway
-			base[sc.String()] = true
-		}
-		var extra []string
-		for s := range fa.PathCondStrings(ccs[0].Ins.Block()) {
-			if !base[s] && !(f == "CreateClient" && s == `(iface:xibc/exported.ConsensusState.ClientType($4) != "tss")`) {
-				extra = append(extra, s)
-			}
-		}
-		sort.Strings(extra)
-		c.Req(len(extra) == 0, "C18/consensus-state-skipped-only-for-tss", funcName(fn), ccs[0].Ins.Pos(), "", "the consensus state is stored only under the additional condition(s) "+strings.Join(extra, " ; ")+": a client for which they do not hold is installed without its consensus state (Status Unknown, every update rejected)")
-	}
+	consStateSkippedOnlyForTSS(c, "C18/consensus-state-skipped-only-for-tss")
 	c.Rule("C18/type-and-existence-guards", "create rejects an existing chain name; upgrade rejects unknown client and differing type; toggle rejects unknown client and equal type; all before any write; the three proposals' ValidateBasic validate the chain name and the client state", 16)
 	c.Spec("C18/type-and-existence-guards", m, FnSpec{Fn: clKeeper + "Keeper.UpgradeClient",
 		Guards:  []G{{"not-found", "reject !{OLD}#1"}, {"type-differs", "reject (iface:xibc/exported.ClientState.ClientType($3) != iface:xibc/exported.ClientState.ClientType({OLD}#0))"}},
@@ -287,4 +266,31 @@ func derefUses(p *Program, v ssa.Value, depth int) []derefUse {
 		}
 	}
 	return out
+}
+
+// consStateSkippedOnlyForTSS: see C18/consensus-state-skipped-only-for-tss (also armed for C13: a TSS client must not get
+// a consensus state at height zero, which the module's own genesis validation rejects after export).
+func consStateSkippedOnlyForTSS(c *Check, rule string) {
+	for _, f := range []string{"CreateClient", "UpgradeClient", "ToggleClient"} {
+		fn := c.F(clKeeper + "Keeper." + f)
+		fa := c.P.FA(fn)
+		scs := c.Calls(fn, "keeper.(Keeper).SetClientState")
+		ccs := c.Calls(fn, "keeper.(Keeper).SetClientConsensusState")
+		if len(scs) != 1 || len(ccs) != 1 {
+			c.Bad(rule, funcName(fn), fn.Pos(), "expected one SetClientState and one SetClientConsensusState site")
+			continue
+		}
+		base := fa.PathCondStrings(scs[0].Ins.Block())
+		for _, sc := range fa.SuccessConds() { // what every successful end of the function has established anyway
+			base[sc.String()] = true
+		}
+		var extra []string
+		for s := range fa.PathCondStrings(ccs[0].Ins.Block()) {
+			if !base[s] && !(f == "CreateClient" && s == `(iface:xibc/exported.ConsensusState.ClientType($4) != "tss")`) {
+				extra = append(extra, s)
+			}
+		}
+		sort.Strings(extra)
+		c.Req(len(extra) == 0, rule, funcName(fn), ccs[0].Ins.Pos(), "", "the consensus state is stored only under the additional condition(s) "+strings.Join(extra, " ; ")+": a client for which they do not hold is installed without its consensus state (Status Unknown, every update rejected)")
+	}
 }
